@@ -372,8 +372,9 @@ def nf_prove(pairs, hyp=None, subst=None, inv_atoms=False, coef_tol=None):
     return ctx, out
 
 
-def numeric_witness(pairs, sampler, tries=200, seed=0, rtol=1e-6, pathcond=None):
-    """Search for an input where some lhs != rhs numerically (IEEE double evaluation of the DAGs)."""
+def numeric_witness(pairs, sampler, tries=200, seed=0, rtol=1e-6, pathcond=None, nonfinite=False):
+    """Search for an input where some lhs != rhs numerically (IEEE double evaluation of the DAGs).
+    nonfinite: a NaN / infinity on exactly one side counts as a difference (used when a side contains a literal NaN / inf node)."""
     rng = random.Random(seed)
     roots = [x for _, l, r in pairs for x in (l, r)]
     for _ in range(tries):
@@ -387,6 +388,8 @@ def numeric_witness(pairs, sampler, tries=200, seed=0, rtol=1e-6, pathcond=None)
         for entry, l, r in pairs:
             a, b = val[l.id], val[r.id]
             if a != a or b != b or math.isinf(a) or math.isinf(b):
+                if nonfinite and (math.isfinite(a) != math.isfinite(b)):
+                    return dict(entry=str(entry), env=env, lhs=repr(a), rhs=repr(b), rtol=rtol)
                 continue
             if abs(a - b) > rtol * (1 + abs(a) + abs(b)):
                 return dict(entry=str(entry), env=env, lhs=a, rhs=b, rtol=rtol)
